@@ -6,10 +6,11 @@ kernel-reducible (`#eval`, `decide`).  The soundness proofs live in
 `OdakProofs/Lemmas/HeapSound.lean`.
 
 * `Instr` / `Prog`      : the IR (nested inductive through `List`)
-* `State`, `Step`, `Exec` : nondeterministic concrete semantics using callee *summaries* `σ`
+* `State`, `Step`, `Exec` : nondeterministic concrete semantics using callee *summaries*
+  `σ` (argument positions possibly modified) and `ρ` (argument positions the result may alias)
 * `ExecReal`            : semantics where calls run the callee body from a table (bounded depth)
-* `AState`, `transfer`, `mayMutate` : the abstract interpretation
-* `isPostFixpoint`      : checker that a summary table is consistent with a table of bodies
+* `AState`, `transfer`, `mayMutate`, `mayReturn` : the abstract interpretation
+* `isPostFixpoint`      : checker that the summary tables are consistent with a table of bodies
 -/
 
 namespace Odak.Heap
@@ -57,40 +58,42 @@ def CallHeap (σ : FnId → List Nat) (f : FnId) (args : List Var)
     (env : Var → Option Obj) (h h' : Obj → Nat) : Prop :=
   ∀ o, h' o ≠ h o → ∃ i, i ∈ σ f ∧ ∃ a, args[i]? = some a ∧ env a = some o
 
-/-- One step of a non-compound instruction (calls use the summary `σ`). -/
-inductive Step (σ : FnId → List Nat) : Instr → State → State → Prop
+/-- One step of a non-compound instruction.  Calls use the summaries: `σ f` = argument positions
+whose objects `f` may modify, `ρ f` = argument positions whose objects the result of `f` may be. -/
+inductive Step (σ ρ : FnId → List Nat) : Instr → State → State → Prop
   | fresh (x : Var) (s : State) :
-      Step σ (.fresh x) s ⟨upd s.env x (some s.next), s.heap, s.next + 1⟩
+      Step σ ρ (.fresh x) s ⟨upd s.env x (some s.next), s.heap, s.next + 1⟩
   | alias (x y : Var) (s : State) :
-      Step σ (.alias x y) s ⟨upd s.env x (s.env y), s.heap, s.next⟩
+      Step σ ρ (.alias x y) s ⟨upd s.env x (s.env y), s.heap, s.next⟩
   | joinKeep (x y : Var) (s : State) :
-      Step σ (.join x y) s s
+      Step σ ρ (.join x y) s s
   | joinTake (x y : Var) (s : State) :
-      Step σ (.join x y) s ⟨upd s.env x (s.env y), s.heap, s.next⟩
+      Step σ ρ (.join x y) s ⟨upd s.env x (s.env y), s.heap, s.next⟩
   | inplace (x : Var) (s : State) (o : Obj) (v : Nat) :
-      s.env x = some o → Step σ (.inplace x) s ⟨s.env, upd s.heap o v, s.next⟩
+      s.env x = some o → Step σ ρ (.inplace x) s ⟨s.env, upd s.heap o v, s.next⟩
   | inplaceNone (x : Var) (s : State) :
-      s.env x = none → Step σ (.inplace x) s s
+      s.env x = none → Step σ ρ (.inplace x) s s
   | callFresh (f : FnId) (args : List Var) (ret : Var) (s : State) (h' : Obj → Nat) :
       CallHeap σ f args s.env s.heap h' →
-      Step σ (.call f args ret) s ⟨upd s.env ret (some s.next), h', s.next + 1⟩
-  | callArg (f : FnId) (args : List Var) (ret : Var) (s : State) (h' : Obj → Nat) (a : Var) :
-      CallHeap σ f args s.env s.heap h' → a ∈ args →
-      Step σ (.call f args ret) s ⟨upd s.env ret (s.env a), h', s.next⟩
+      Step σ ρ (.call f args ret) s ⟨upd s.env ret (some s.next), h', s.next + 1⟩
+  | callArg (f : FnId) (args : List Var) (ret : Var) (s : State) (h' : Obj → Nat) (i : Nat)
+      (a : Var) :
+      CallHeap σ f args s.env s.heap h' → i ∈ ρ f → args[i]? = some a →
+      Step σ ρ (.call f args ret) s ⟨upd s.env ret (s.env a), h', s.next⟩
 
 /-- Big-step nondeterministic execution of a program with summary semantics for calls. -/
-inductive Exec (σ : FnId → List Nat) : Prog → State → State → Prop
-  | nil (s : State) : Exec σ [] s s
+inductive Exec (σ ρ : FnId → List Nat) : Prog → State → State → Prop
+  | nil (s : State) : Exec σ ρ [] s s
   | step {i : Instr} {rest : Prog} {s s1 s' : State} :
-      Step σ i s s1 → Exec σ rest s1 s' → Exec σ (i :: rest) s s'
+      Step σ ρ i s s1 → Exec σ ρ rest s1 s' → Exec σ ρ (i :: rest) s s'
   | branchL {p q rest : Prog} {s s1 s' : State} :
-      Exec σ p s s1 → Exec σ rest s1 s' → Exec σ (.branch p q :: rest) s s'
+      Exec σ ρ p s s1 → Exec σ ρ rest s1 s' → Exec σ ρ (.branch p q :: rest) s s'
   | branchR {p q rest : Prog} {s s1 s' : State} :
-      Exec σ q s s1 → Exec σ rest s1 s' → Exec σ (.branch p q :: rest) s s'
+      Exec σ ρ q s s1 → Exec σ ρ rest s1 s' → Exec σ ρ (.branch p q :: rest) s s'
   | loopDone {p rest : Prog} {s s' : State} :
-      Exec σ rest s s' → Exec σ (.loop p :: rest) s s'
+      Exec σ ρ rest s s' → Exec σ ρ (.loop p :: rest) s s'
   | loopStep {p rest : Prog} {s s1 s' : State} :
-      Exec σ p s s1 → Exec σ (.loop p :: rest) s1 s' → Exec σ (.loop p :: rest) s s'
+      Exec σ ρ p s s1 → Exec σ ρ (.loop p :: rest) s1 s' → Exec σ ρ (.loop p :: rest) s s'
 
 /-- Environment of a callee with `k` parameters: parameter `i < k` is bound to the object of
 `args[i]` (unbound if the argument is missing or unbound); everything else is unbound. -/
@@ -98,46 +101,46 @@ def paramEnv (k : Nat) (args : List Var) (env : Var → Option Obj) : Var → Op
   fun x => if x < k then (args[x]?).bind env else none
 
 /-- How the caller's state `s1` after a real call is obtained from the caller's state `s` before the
-call and the callee's final state `t`: heap and allocation pointer are the callee's, the
-environment is the caller's with `ret` rebound to a fresh object, to an object allocated by the
-callee, or to the object of one of the arguments. -/
-def RetBind (args : List Var) (ret : Var) (s t s1 : State) : Prop :=
-  s1 = ⟨upd s.env ret (some t.next), t.heap, t.next + 1⟩ ∨
-  (∃ o, s.next ≤ o ∧ o < t.next ∧ s1 = ⟨upd s.env ret (some o), t.heap, t.next⟩) ∨
-  (∃ a, a ∈ args ∧ s1 = ⟨upd s.env ret (s.env a), t.heap, t.next⟩)
+call and the callee's final state `t` (`rv` = the callee's return variable): heap and allocation
+pointer are the callee's, the environment is the caller's with `ret` rebound to the callee's final
+`env rv` if that is an object (an entry object or one the callee allocated), and to a fresh object
+if `rv` is unbound. -/
+def RetBind (ret rv : Var) (s t s1 : State) : Prop :=
+  (∃ o, t.env rv = some o ∧ s1 = ⟨upd s.env ret (some o), t.heap, t.next⟩) ∨
+  (t.env rv = none ∧ s1 = ⟨upd s.env ret (some t.next), t.heap, t.next + 1⟩)
 
 /-- A `Step` is allowed in `ExecReal` at depth `d` unless it is a call of a function that has a body
 in the table and depth is left. -/
-def SummaryAllowed (tbl : FnId → Option (Nat × Prog)) (d : Nat) (i : Instr) : Prop :=
+def SummaryAllowed (tbl : FnId → Option (Nat × Var × Prog)) (d : Nat) (i : Instr) : Prop :=
   ∀ f args ret, i = .call f args ret → d = 0 ∨ tbl f = none
 
 /-- "Real" semantics: a call of a function with a body in `tbl` runs that body (at depth `d`, when
 executing at depth `d+1`) in a fresh environment.  At depth `0`, or for functions without a body,
 the summary semantics of `Step` is used. -/
-inductive ExecReal (σ : FnId → List Nat) (tbl : FnId → Option (Nat × Prog)) :
+inductive ExecReal (σ ρ : FnId → List Nat) (tbl : FnId → Option (Nat × Var × Prog)) :
     Nat → Prog → State → State → Prop
-  | nil (d : Nat) (s : State) : ExecReal σ tbl d [] s s
+  | nil (d : Nat) (s : State) : ExecReal σ ρ tbl d [] s s
   | step {d : Nat} {i : Instr} {rest : Prog} {s s1 s' : State} :
-      SummaryAllowed tbl d i → Step σ i s s1 → ExecReal σ tbl d rest s1 s' →
-      ExecReal σ tbl d (i :: rest) s s'
-  | callReal {d : Nat} {f : FnId} {args : List Var} {ret : Var} {k : Nat} {body rest : Prog}
-      {s t s1 s' : State} :
-      tbl f = some (k, body) →
-      ExecReal σ tbl d body ⟨paramEnv k args s.env, s.heap, s.next⟩ t →
-      RetBind args ret s t s1 →
-      ExecReal σ tbl (d + 1) rest s1 s' →
-      ExecReal σ tbl (d + 1) (.call f args ret :: rest) s s'
+      SummaryAllowed tbl d i → Step σ ρ i s s1 → ExecReal σ ρ tbl d rest s1 s' →
+      ExecReal σ ρ tbl d (i :: rest) s s'
+  | callReal {d : Nat} {f : FnId} {args : List Var} {ret : Var} {k : Nat} {rv : Var}
+      {body rest : Prog} {s t s1 s' : State} :
+      tbl f = some (k, rv, body) →
+      ExecReal σ ρ tbl d body ⟨paramEnv k args s.env, s.heap, s.next⟩ t →
+      RetBind ret rv s t s1 →
+      ExecReal σ ρ tbl (d + 1) rest s1 s' →
+      ExecReal σ ρ tbl (d + 1) (.call f args ret :: rest) s s'
   | branchL {d : Nat} {p q rest : Prog} {s s1 s' : State} :
-      ExecReal σ tbl d p s s1 → ExecReal σ tbl d rest s1 s' →
-      ExecReal σ tbl d (.branch p q :: rest) s s'
+      ExecReal σ ρ tbl d p s s1 → ExecReal σ ρ tbl d rest s1 s' →
+      ExecReal σ ρ tbl d (.branch p q :: rest) s s'
   | branchR {d : Nat} {p q rest : Prog} {s s1 s' : State} :
-      ExecReal σ tbl d q s s1 → ExecReal σ tbl d rest s1 s' →
-      ExecReal σ tbl d (.branch p q :: rest) s s'
+      ExecReal σ ρ tbl d q s s1 → ExecReal σ ρ tbl d rest s1 s' →
+      ExecReal σ ρ tbl d (.branch p q :: rest) s s'
   | loopDone {d : Nat} {p rest : Prog} {s s' : State} :
-      ExecReal σ tbl d rest s s' → ExecReal σ tbl d (.loop p :: rest) s s'
+      ExecReal σ ρ tbl d rest s s' → ExecReal σ ρ tbl d (.loop p :: rest) s s'
   | loopStep {d : Nat} {p rest : Prog} {s s1 s' : State} :
-      ExecReal σ tbl d p s s1 → ExecReal σ tbl d (.loop p :: rest) s1 s' →
-      ExecReal σ tbl d (.loop p :: rest) s s'
+      ExecReal σ ρ tbl d p s s1 → ExecReal σ ρ tbl d (.loop p :: rest) s1 s' →
+      ExecReal σ ρ tbl d (.loop p :: rest) s s'
 
 /-! ## Abstract domain -/
 
@@ -189,9 +192,10 @@ def loopFix (f : AState → AState) : Nat → AState → AState
   | 0, a => if (f a).leb a then a else a.toTop
   | n + 1, a => if (f a).leb a then a else loopFix f n (a.join (f a))
 
-/-- Parameters possibly mutated by a call: those the arguments at the positions `σ f` may denote. -/
-def callMut (σf : List Nat) (args : List Var) (a : AState) : List Nat :=
-  σf.flatMap (fun i => match args[i]? with | some v => a.get v | none => [])
+/-- Parameters that the arguments at the positions `pos` may denote (used with `pos = σ f` for the
+mutated set and with `pos = ρ f` for the abstract value of the result). -/
+def argPts (pos : List Nat) (args : List Var) (a : AState) : List Nat :=
+  pos.flatMap (fun i => match args[i]? with | some v => a.get v | none => [])
 
 mutual
 /-- number of instructions (used for loop fuel) -/
@@ -210,50 +214,59 @@ def loopFuel (k : Nat) (p : Prog) : Nat := (progSize p + 1) * (k + 1) + 1
 
 mutual
 /-- abstract transfer of one instruction -/
-def transferI (σ : FnId → List Nat) (k : Nat) : Instr → AState → AState
+def transferI (σ ρ : FnId → List Nat) (k : Nat) : Instr → AState → AState
   | .fresh x, a => a.set x []
   | .alias x y, a => a.set x (a.get y)
   | .join x y, a => a.set x (union (a.get x) (a.get y))
   | .inplace x, a => a.addMut (a.get x)
   | .call f args ret, a =>
-      (a.addMut (callMut (σ f) args a)).set ret (union [] (args.flatMap a.get))
-  | .branch p q, a => (transfer σ k p a).join (transfer σ k q a)
-  | .loop p, a => loopFix (transfer σ k p) (loopFuel k p) a
+      (a.addMut (argPts (σ f) args a)).set ret (union [] (argPts (ρ f) args a))
+  | .branch p q, a => (transfer σ ρ k p a).join (transfer σ ρ k q a)
+  | .loop p, a => loopFix (transfer σ ρ k p) (loopFuel k p) a
 /-- abstract transfer of a program -/
-def transfer (σ : FnId → List Nat) (k : Nat) : List Instr → AState → AState
+def transfer (σ ρ : FnId → List Nat) (k : Nat) : List Instr → AState → AState
   | [], a => a
-  | i :: is, a => transfer σ k is (transferI σ k i a)
+  | i :: is, a => transfer σ ρ k is (transferI σ ρ k i a)
 end
 
 /-- abstract state at exit of a `k`-parameter function with body `prog` -/
-def analyze (σ : FnId → List Nat) (k : Nat) (prog : Prog) : AState :=
-  transfer σ k prog (AState.init k)
+def analyze (σ ρ : FnId → List Nat) (k : Nat) (prog : Prog) : AState :=
+  transfer σ ρ k prog (AState.init k)
 
 /-- Parameter indices (sorted, no duplicates, all `< k`) whose initial objects may be modified. -/
-def mayMutate (σ : FnId → List Nat) (k : Nat) (prog : Prog) : List Nat :=
-  let a := analyze σ k prog
+def mayMutate (σ ρ : FnId → List Nat) (k : Nat) (prog : Prog) : List Nat :=
+  let a := analyze σ ρ k prog
   (List.range k).filter (fun p => a.top || a.muts.contains p)
+
+/-- Parameter indices (sorted, no duplicates, all `< k`) whose initial objects the return variable
+`rv` may denote at exit. -/
+def mayReturn (σ ρ : FnId → List Nat) (k : Nat) (rv : Var) (prog : Prog) : List Nat :=
+  let a := analyze σ ρ k prog
+  (List.range k).filter (fun p => a.top || (a.get rv).contains p)
 
 /-! ## Tables -/
 
-/-- Table of function bodies as a function, from an association list `(id, arity, body)`
-(first entry wins). -/
-def tblOf : List (FnId × Nat × Prog) → FnId → Option (Nat × Prog)
+/-- Table of function bodies as a function, from an association list
+`(id, arity, return variable, body)` (first entry wins). -/
+def tblOf : List (FnId × Nat × Var × Prog) → FnId → Option (Nat × Var × Prog)
   | [], _ => none
-  | (g, k, body) :: t, f => if g = f then some (k, body) else tblOf t f
+  | (g, k, rv, body) :: t, f => if g = f then some (k, rv, body) else tblOf t f
 
 /-- Summary table as a function, from an association list (first entry wins; default `[]`). -/
 def sigmaOf : List (FnId × List Nat) → FnId → List Nat
   | [], _ => []
   | (g, l) :: t, f => if g = f then l else sigmaOf t f
 
-/-- `σ` is a post-fixpoint for `tbl`: the analysis of every body (using `σ` for its callees) reports
-only positions already in `σ`. -/
-def PostFixpoint (σ : FnId → List Nat) (tbl : FnId → Option (Nat × Prog)) : Prop :=
-  ∀ f k body, tbl f = some (k, body) → ∀ p, p ∈ mayMutate σ k body → p ∈ σ f
+/-- `(σ, ρ)` is a post-fixpoint for `tbl`: the analysis of every body (using `σ`, `ρ` for its
+callees) reports only mutated positions already in `σ` and returned positions already in `ρ`. -/
+def PostFixpoint (σ ρ : FnId → List Nat) (tbl : FnId → Option (Nat × Var × Prog)) : Prop :=
+  ∀ f k rv body, tbl f = some (k, rv, body) →
+    (∀ p, p ∈ mayMutate σ ρ k body → p ∈ σ f) ∧ (∀ p, p ∈ mayReturn σ ρ k rv body → p ∈ ρ f)
 
-/-- Computable check of `PostFixpoint σ (tblOf table)` (checks every entry of the list). -/
-def isPostFixpoint (σ : FnId → List Nat) (table : List (FnId × Nat × Prog)) : Bool :=
-  table.all (fun e => (mayMutate σ e.2.1 e.2.2).all (fun p => (σ e.1).contains p))
+/-- Computable check of `PostFixpoint σ ρ (tblOf table)` (checks every entry of the list). -/
+def isPostFixpoint (σ ρ : FnId → List Nat) (table : List (FnId × Nat × Var × Prog)) : Bool :=
+  table.all (fun e =>
+    (mayMutate σ ρ e.2.1 e.2.2.2).all (fun p => (σ e.1).contains p) &&
+    (mayReturn σ ρ e.2.1 e.2.2.1 e.2.2.2).all (fun p => (ρ e.1).contains p))
 
 end Odak.Heap
